@@ -188,7 +188,8 @@ func c09EmbedPieces(c *Ctx, docs []c09Doc, node *c09JS, maxPiece int) []c09Piece
 // keeps the original payload unless the result is read back as one text token) and a80add2 (js).  Regression inputs: they
 // must pass every oracle of this stage.
 var c09HostileCSS = []string{"a{b:< /style >}", "a{b:c}d{e:< /STYLE >;f:g}", "a{b:< /*x*/ /style >}"}
-var c09HostileJS = []string{"x = a< /script >/.test(b)", "var y = b< /script\t>/i.exec(c)"}
+var c09HostileJS = []string{"x = a< /script >/.test(b)", "var y = b< /script\t>/i.exec(c)",
+	"var re=/<!--<script>/;/* </script> */ f()", "/*! <!--<script > */var s=\"</script>\";f()", "var r2=/<!--<SCRIPT\\/>/i; // </script >\nf()"}
 
 var c09AttrCSS = []string{"color:#ff0000;margin:0px 0px 0px 0px", `background:url("a b.png") no-repeat`, `font-family:"Times New Roman",serif`, `content:'"'`, `content:"'"`, "width:calc(100% - 10px)", `quotes:'<' '>'`, "--x: {a:b}", `background:url(data:image/png;base64,AAAA)`}
 var c09AttrJS = []string{`return false`, `alert("a" + 'b')`, `x = a < b && c > d`, "f(`t${a}`)", `if (a) { b() } else { c() }`, `s = "</div>" + '&amp;'`, `javascript:void(0)`, `a = b ? "x" : 'y'`, `e = /"'/.test(s)`}
